@@ -42,8 +42,9 @@ P_LINE = 0.3
 def gen(rng, tier, i):
     if rng.random() < P_LINE:
         plan = _gen.line_decorate(
-            rng, _gen.gen_server_plan(rng, LINE_PROFILE), LINE_HOT)
-        if rng.random() < 0.5:
+            rng, _gen.gen_server_plan(rng, LINE_PROFILE), LINE_HOT,
+            stall=0.3)
+        if not plan['line'].get('stall') and rng.random() < 0.5:
             _gen.race_cluster(rng, plan)
         return plan
     return _gen.gen_server_plan(rng, PROFILE)
